@@ -492,13 +492,23 @@ class SymArr:
         return _compare(self, o, "lt")
 
     def __le__(self, o):
+        # non-strict comparison used as a 0/1 value (same as jnp.less_equal) unless the configuration fixes its outcome
+        if getattr(W, "compare_outcome", None) is None:
+            return less_equal(self, o)
         return _compare(self, o, "le")
 
     def __gt__(self, o):
         return _compare(o, self, "lt")
 
     def __ge__(self, o):
+        if getattr(W, "compare_outcome", None) is None:
+            return greater_equal(self, o)
         return _compare(o, self, "le")
+
+    def __and__(self, o):
+        return logical_and(self, o)
+
+    __rand__ = __and__
 
     # -- indexing
     def __getitem__(self, key):
@@ -1357,7 +1367,11 @@ def vstack(arrs):
 
 
 def stack(arrs, axis=0):
-    raise ShimUnsupported("stack")
+    """jnp.stack along a new leading axis of literal length: the list of rows (same representation as an unrolled scan)"""
+    W.count("stack")
+    if axis != 0:
+        raise ShimUnsupported("stack along an axis other than 0")
+    return Stack([_lift(a) if not isinstance(a, (int, float, Fraction)) else a for a in arrs])
 
 
 def block(nested):
@@ -1546,12 +1560,21 @@ def dot(a, b):
 
 
 def matmul(a, b):
+    """numpy matmul semantics: the last two axes are multiplied, the leading (batch) axes are right-aligned and broadcast"""
+    W.count("matmul")
     a, b = _lift(a), _lift(b)
-    if a.ndim == 2 and b.ndim == 2:
-        return einsum("ab,bc->ac", a, b)
-    if a.ndim == 3 and b.ndim == 3:
-        return einsum("rab,rbc->rac", a, b)
-    raise ShimUnsupported("matmul")
+    if a.ndim == 1 and b.ndim == 1:
+        return einsum("a,a->", a, b)
+    if a.ndim == 1:
+        return squeeze(matmul(a[None], b), -2)
+    if b.ndim == 1:
+        return squeeze(matmul(a, b[..., None]), -1)
+    na, nb = a.ndim - 2, b.ndim - 2
+    n = max(na, nb)
+    if n > 6:
+        raise ShimUnsupported("matmul with more than six batch axes")
+    L = "abcdef"[:n]
+    return einsum(f"{L[n - na:]}xy,{L[n - nb:]}yz->{L}xz", a, b)
 
 
 def outer(a, b):
